@@ -957,6 +957,19 @@ def work_C07(run, rng, budget):
     why = "reader raised: " + real if g is None else compare_read(g, m)
     if why:
         run.fail("v3000-read-differs-from-file", f"all 118 elements: {why}", {"mol": mol_repr(m), "text": text})
+    import random as _random
+    own = _random.Random(f"c07-big-{os.environ.get('VERIF_SEED', '0')}")
+    for m in big_written_molecules():
+        # three- and four-digit indices and counts
+        sizes(run, m)
+        text, info = RD.render_v3000(m, own, {"star": False})
+        line, real, rinfo = R.op_moltext(text)
+        run.corr(line, real, "atom-order")
+        g = rinfo.get("graph")
+        run.case(("C07big", m.family), True)
+        why = "reader raised: " + real if g is None else compare_read(g, m)
+        if why:
+            run.fail("v3000-read-differs-from-file", f"{m.family}: {why}", {"mol": mol_repr(m), "text": text[:4000]})
     for m in molecules(run, rng, 150 * budget, max_n=14):
         maybe_zero_d(run, m, rng, 0.15)
         for k in range(2):
@@ -1183,9 +1196,32 @@ def graph_for_writer(m: G.Mol, rng, wide=False) -> nx.Graph:
     return any_listing(g, rng)
 
 
+def big_written_molecules():
+    """molecules whose files need three- and four-digit indices and counts: a chain of 1005 carbons with labels at both ends and
+    in the middle, an iron centre with 130 chlorine ligands, a ring of 150 atoms"""
+    n = 1005
+    atoms = [G._atom("C", i) for i in range(n)]
+    atoms[2]["mass"] = 13
+    atoms[500]["chg"] = -1
+    atoms[n - 1]["rad"] = 2
+    yield G.Mol(atoms, [(i, i + 1, 1 + (i % 3 == 0)) for i in range(n - 1)], "big:chain1005")
+    atoms = [G._atom("Fe", 0)] + [G._atom("Cl", i + 1) for i in range(130)]
+    atoms[77]["mass"] = 37
+    yield G.Mol(atoms, [(0, i + 1, 9) for i in range(130)], "big:star131")
+    atoms = [G._atom("C", i) for i in range(150)]
+    atoms[149]["mass"] = 14
+    yield G.Mol(atoms, [(i, (i + 1) % 150, 4) for i in range(150)], "big:ring150")
+
+
 def work_C09(run, rng, budget):
-    for m in molecules(run, rng, 100 * budget, max_n=12):
-        g = graph_for_writer(m, rng, wide=rng.random() < 0.6)
+    import itertools
+    import random as _random
+    own = _random.Random(f"c09-big-{os.environ.get('VERIF_SEED', '0')}")
+    for m, r in itertools.chain(((m, own) for m in big_written_molecules()),
+                                ((m, rng) for m in molecules(run, rng, 100 * budget, max_n=12))):
+        if r is own:
+            sizes(run, m)
+        g = graph_for_writer(m, r, wide=r.random() < 0.6)
         line, real, info = R.op_write(g)
         run.corr(line, real, "exact")
         text = info.get("text")
